@@ -321,42 +321,46 @@ Record st := {
   pl : ploop;
   lastw : Z;                   (* ghost: when the ping loop started / last woke *)
   lastping : Z;                (* ghost: when the last ping was queued *)
+  waiting : list Z;            (* callers blocked in AsyncProcessRequest on _open_result.wait() *)
 }.
 
 Definition init (t0 : Z) : st :=
   {| now := t0; cst := Idle; opn := None; tagmap := []; seen := []; expired := []; queue := []; sndl := SDead;
-     rcv := RDead; pending := []; par := false; ping_dl := None; pl := PNone; lastw := t0; lastping := t0 |}.
+     rcv := RDead; pending := []; par := false; ping_dl := None; pl := PNone; lastw := t0; lastping := t0; waiting := [] |}.
 
 Definition set_now (s : st) x : st :=
-  {| now := x; cst := cst s; opn := opn s; tagmap := tagmap s; seen := seen s; expired := expired s; queue := queue s; sndl := sndl s; rcv := rcv s; pending := pending s; par := par s; ping_dl := ping_dl s; pl := pl s; lastw := lastw s; lastping := lastping s |}.
+  {| now := x; cst := cst s; opn := opn s; tagmap := tagmap s; seen := seen s; expired := expired s; queue := queue s; sndl := sndl s; rcv := rcv s; pending := pending s; par := par s; ping_dl := ping_dl s; pl := pl s; lastw := lastw s; lastping := lastping s; waiting := waiting s |}.
 Definition set_cst (s : st) x : st :=
-  {| now := now s; cst := x; opn := opn s; tagmap := tagmap s; seen := seen s; expired := expired s; queue := queue s; sndl := sndl s; rcv := rcv s; pending := pending s; par := par s; ping_dl := ping_dl s; pl := pl s; lastw := lastw s; lastping := lastping s |}.
+  {| now := now s; cst := x; opn := opn s; tagmap := tagmap s; seen := seen s; expired := expired s; queue := queue s; sndl := sndl s; rcv := rcv s; pending := pending s; par := par s; ping_dl := ping_dl s; pl := pl s; lastw := lastw s; lastping := lastping s; waiting := waiting s |}.
 Definition set_opn (s : st) x : st :=
-  {| now := now s; cst := cst s; opn := x; tagmap := tagmap s; seen := seen s; expired := expired s; queue := queue s; sndl := sndl s; rcv := rcv s; pending := pending s; par := par s; ping_dl := ping_dl s; pl := pl s; lastw := lastw s; lastping := lastping s |}.
+  {| now := now s; cst := cst s; opn := x; tagmap := tagmap s; seen := seen s; expired := expired s; queue := queue s; sndl := sndl s; rcv := rcv s; pending := pending s; par := par s; ping_dl := ping_dl s; pl := pl s; lastw := lastw s; lastping := lastping s; waiting := waiting s |}.
 Definition set_tagmap (s : st) x : st :=
-  {| now := now s; cst := cst s; opn := opn s; tagmap := x; seen := seen s; expired := expired s; queue := queue s; sndl := sndl s; rcv := rcv s; pending := pending s; par := par s; ping_dl := ping_dl s; pl := pl s; lastw := lastw s; lastping := lastping s |}.
+  {| now := now s; cst := cst s; opn := opn s; tagmap := x; seen := seen s; expired := expired s; queue := queue s; sndl := sndl s; rcv := rcv s; pending := pending s; par := par s; ping_dl := ping_dl s; pl := pl s; lastw := lastw s; lastping := lastping s; waiting := waiting s |}.
 Definition set_seen (s : st) x : st :=
-  {| now := now s; cst := cst s; opn := opn s; tagmap := tagmap s; seen := x; expired := expired s; queue := queue s; sndl := sndl s; rcv := rcv s; pending := pending s; par := par s; ping_dl := ping_dl s; pl := pl s; lastw := lastw s; lastping := lastping s |}.
+  {| now := now s; cst := cst s; opn := opn s; tagmap := tagmap s; seen := x; expired := expired s; queue := queue s; sndl := sndl s; rcv := rcv s; pending := pending s; par := par s; ping_dl := ping_dl s; pl := pl s; lastw := lastw s; lastping := lastping s; waiting := waiting s |}.
 Definition set_expired (s : st) x : st :=
-  {| now := now s; cst := cst s; opn := opn s; tagmap := tagmap s; seen := seen s; expired := x; queue := queue s; sndl := sndl s; rcv := rcv s; pending := pending s; par := par s; ping_dl := ping_dl s; pl := pl s; lastw := lastw s; lastping := lastping s |}.
+  {| now := now s; cst := cst s; opn := opn s; tagmap := tagmap s; seen := seen s; expired := x; queue := queue s; sndl := sndl s; rcv := rcv s; pending := pending s; par := par s; ping_dl := ping_dl s; pl := pl s; lastw := lastw s; lastping := lastping s; waiting := waiting s |}.
 Definition set_queue (s : st) x : st :=
-  {| now := now s; cst := cst s; opn := opn s; tagmap := tagmap s; seen := seen s; expired := expired s; queue := x; sndl := sndl s; rcv := rcv s; pending := pending s; par := par s; ping_dl := ping_dl s; pl := pl s; lastw := lastw s; lastping := lastping s |}.
+  {| now := now s; cst := cst s; opn := opn s; tagmap := tagmap s; seen := seen s; expired := expired s; queue := x; sndl := sndl s; rcv := rcv s; pending := pending s; par := par s; ping_dl := ping_dl s; pl := pl s; lastw := lastw s; lastping := lastping s; waiting := waiting s |}.
 Definition set_sndl (s : st) x : st :=
-  {| now := now s; cst := cst s; opn := opn s; tagmap := tagmap s; seen := seen s; expired := expired s; queue := queue s; sndl := x; rcv := rcv s; pending := pending s; par := par s; ping_dl := ping_dl s; pl := pl s; lastw := lastw s; lastping := lastping s |}.
+  {| now := now s; cst := cst s; opn := opn s; tagmap := tagmap s; seen := seen s; expired := expired s; queue := queue s; sndl := x; rcv := rcv s; pending := pending s; par := par s; ping_dl := ping_dl s; pl := pl s; lastw := lastw s; lastping := lastping s; waiting := waiting s |}.
 Definition set_rcv (s : st) x : st :=
-  {| now := now s; cst := cst s; opn := opn s; tagmap := tagmap s; seen := seen s; expired := expired s; queue := queue s; sndl := sndl s; rcv := x; pending := pending s; par := par s; ping_dl := ping_dl s; pl := pl s; lastw := lastw s; lastping := lastping s |}.
+  {| now := now s; cst := cst s; opn := opn s; tagmap := tagmap s; seen := seen s; expired := expired s; queue := queue s; sndl := sndl s; rcv := x; pending := pending s; par := par s; ping_dl := ping_dl s; pl := pl s; lastw := lastw s; lastping := lastping s; waiting := waiting s |}.
 Definition set_pending (s : st) x : st :=
-  {| now := now s; cst := cst s; opn := opn s; tagmap := tagmap s; seen := seen s; expired := expired s; queue := queue s; sndl := sndl s; rcv := rcv s; pending := x; par := par s; ping_dl := ping_dl s; pl := pl s; lastw := lastw s; lastping := lastping s |}.
+  {| now := now s; cst := cst s; opn := opn s; tagmap := tagmap s; seen := seen s; expired := expired s; queue := queue s; sndl := sndl s; rcv := rcv s; pending := x; par := par s; ping_dl := ping_dl s; pl := pl s; lastw := lastw s; lastping := lastping s; waiting := waiting s |}.
 Definition set_par (s : st) x : st :=
-  {| now := now s; cst := cst s; opn := opn s; tagmap := tagmap s; seen := seen s; expired := expired s; queue := queue s; sndl := sndl s; rcv := rcv s; pending := pending s; par := x; ping_dl := ping_dl s; pl := pl s; lastw := lastw s; lastping := lastping s |}.
+  {| now := now s; cst := cst s; opn := opn s; tagmap := tagmap s; seen := seen s; expired := expired s; queue := queue s; sndl := sndl s; rcv := rcv s; pending := pending s; par := x; ping_dl := ping_dl s; pl := pl s; lastw := lastw s; lastping := lastping s; waiting := waiting s |}.
 Definition set_ping_dl (s : st) x : st :=
-  {| now := now s; cst := cst s; opn := opn s; tagmap := tagmap s; seen := seen s; expired := expired s; queue := queue s; sndl := sndl s; rcv := rcv s; pending := pending s; par := par s; ping_dl := x; pl := pl s; lastw := lastw s; lastping := lastping s |}.
+  {| now := now s; cst := cst s; opn := opn s; tagmap := tagmap s; seen := seen s; expired := expired s; queue := queue s; sndl := sndl s; rcv := rcv s; pending := pending s; par := par s; ping_dl := x; pl := pl s; lastw := lastw s; lastping := lastping s; waiting := waiting s |}.
 Definition set_pl (s : st) x : st :=
-  {| now := now s; cst := cst s; opn := opn s; tagmap := tagmap s; seen := seen s; expired := expired s; queue := queue s; sndl := sndl s; rcv := rcv s; pending := pending s; par := par s; ping_dl := ping_dl s; pl := x; lastw := lastw s; lastping := lastping s |}.
+  {| now := now s; cst := cst s; opn := opn s; tagmap := tagmap s; seen := seen s; expired := expired s; queue := queue s; sndl := sndl s; rcv := rcv s; pending := pending s; par := par s; ping_dl := ping_dl s; pl := x; lastw := lastw s; lastping := lastping s; waiting := waiting s |}.
 Definition set_lastw (s : st) x : st :=
-  {| now := now s; cst := cst s; opn := opn s; tagmap := tagmap s; seen := seen s; expired := expired s; queue := queue s; sndl := sndl s; rcv := rcv s; pending := pending s; par := par s; ping_dl := ping_dl s; pl := pl s; lastw := x; lastping := lastping s |}.
+  {| now := now s; cst := cst s; opn := opn s; tagmap := tagmap s; seen := seen s; expired := expired s; queue := queue s; sndl := sndl s; rcv := rcv s; pending := pending s; par := par s; ping_dl := ping_dl s; pl := pl s; lastw := x; lastping := lastping s; waiting := waiting s |}.
 Definition set_lastping (s : st) x : st :=
-  {| now := now s; cst := cst s; opn := opn s; tagmap := tagmap s; seen := seen s; expired := expired s; queue := queue s; sndl := sndl s; rcv := rcv s; pending := pending s; par := par s; ping_dl := ping_dl s; pl := pl s; lastw := lastw s; lastping := x |}.
+  {| now := now s; cst := cst s; opn := opn s; tagmap := tagmap s; seen := seen s; expired := expired s; queue := queue s; sndl := sndl s; rcv := rcv s; pending := pending s; par := par s; ping_dl := ping_dl s; pl := pl s; lastw := lastw s; lastping := x; waiting := waiting s |}.
+
+Definition set_waiting (s : st) x : st :=
+  {| now := now s; cst := cst s; opn := opn s; tagmap := tagmap s; seen := seen s; expired := expired s; queue := queue s; sndl := sndl s; rcv := rcv s; pending := pending s; par := par s; ping_dl := ping_dl s; pl := pl s; lastw := lastw s; lastping := lastping s; waiting := x |}.
 
 Definition item_eqb (a b : item) : bool :=
   match a, b with
@@ -374,7 +378,7 @@ Definition ar_fail (s : st) : st :=
   if par s then
     {| now := now s; cst := cst s; opn := wake_fail (opn s); tagmap := tagmap s; seen := seen s; expired := expired s;
        queue := queue s; sndl := sndl s; rcv := rcv s; pending := pending s; par := par s; ping_dl := None; pl := pl s;
-       lastw := lastw s; lastping := lastping s |}
+       lastw := lastw s; lastping := lastping s; waiting := waiting s |}
   else s.
 
 (* MuxSocketTransportSink._Shutdown(reason, fault), then the ThriftMux override: if self._ping_ar: set_exception *)
@@ -384,7 +388,7 @@ Definition shutdown (fault : bool) (s : st) : st * list ev :=
   | _ =>
       ({| now := now s; cst := Closed; opn := if par s then wake_fail (opn s) else opn s; tagmap := []; seen := seen s;
           expired := expired s; queue := []; sndl := SDead; rcv := RDead; pending := pending s; par := par s;
-          ping_dl := if par s then None else ping_dl s; pl := PNone; lastw := lastw s; lastping := lastping s |},
+          ping_dl := if par s then None else ping_dl s; pl := PNone; lastw := lastw s; lastping := lastping s; waiting := waiting s |},
        (if fault then [Faulted] else []) ++ map (fun c => Post c KClientErr) (tagmap s) ++ [ShutdownAt (now s)])
   end.
 
@@ -394,7 +398,8 @@ Inductive label :=
 | MOStart                    (* _OpenImpl starts: connect begins *)
 | MOConn (ok : bool)         (* connect returns / raises *)
 | MOResume                   (* _OpenImpl, made runnable by the first ping's result, runs *)
-| MReq (c : Z)               (* AsyncProcessRequest for a two-way call c *)
+| MReq (c : Z)               (* AsyncProcessRequest for a two-way call c; while Open() is in progress the caller blocks *)
+| MResumeReq (c : Z)         (* a caller blocked on the open result resumes: the state is examined now *)
 | MExpire (c : Z)            (* c's deadline event is set (ClientTimeoutSink) and its subscribers are notified *)
 | MTake                      (* _SendLoop: queue.get() returned, _HandleTimeout ran *)
 | MWrote (r : io)            (* _SendLoop: socket.write returned / raised *)
@@ -416,7 +421,7 @@ Definition tick_ok (s : st) (t : Z) : bool :=
 Definition send_ping (s : st) : st * list ev :=
   ({| now := now s; cst := cst s; opn := opn s; tagmap := tagmap s; seen := seen s; expired := expired s;
       queue := queue s ++ [IPing]; sndl := sndl s; rcv := rcv s; pending := pending s; par := true;
-      ping_dl := Some (now s + ping_timeout); pl := pl s; lastw := lastw s; lastping := now s |},
+      ping_dl := Some (now s + ping_timeout); pl := pl s; lastw := lastw s; lastping := now s; waiting := waiting s |},
    [PingSent (now s)]).
 
 Definition step (s : st) (l : label) : option (st * list ev) :=
@@ -455,10 +460,21 @@ Definition step (s : st) (l : label) : option (st * list ev) :=
       if mem_z c (seen s) then None else
       let s0 := set_seen s (c :: seen s) in
       match cst s, opn s with
-      | Idle, Some _ => None                      (* the caller would block in _open_result.wait() *)
+      | Idle, Some _ => Some (set_waiting s0 (waiting s ++ [c]), [])     (* blocks in _open_result.wait() *)
       | Idle, None | Closed, _ => Some (s0, [Post c KNotOpen])
       | Open, _ => Some (set_queue (set_tagmap s0 (tagmap s ++ [c])) (queue s ++ [IFrame c]), [Accepted c])
       end
+  | MResumeReq c =>
+      (* the open result became ready (set after _state = Open, or given an exception by _Shutdown / the failed
+         _OpenImpl): only now "Sink not open" is decided *)
+      if mem_z c (waiting s) then
+        let s0 := set_waiting s (remove_z c (waiting s)) in
+        match cst s with
+        | Idle => None
+        | Closed => Some (s0, [Post c KNotOpen])
+        | Open => Some (set_queue (set_tagmap s0 (tagmap s ++ [c])) (queue s ++ [IFrame c]), [Accepted c])
+        end
+      else None
   | MExpire c =>
       if mem_z c (seen s) && negb (mem_z c (expired s)) then
         let s0 := set_expired s (c :: expired s) in
